@@ -229,3 +229,11 @@ Theorem C07_types_panic_sites_known :
   gen_types_panic_sites = [("types.Oracle.GetOracle", "MustAccAddressFromBech32")]%string.
 Proof. reflexivity. Qed.
 Print Assumptions C07_types_panic_sites_known.
+
+(* fx-core's only begin-block code (x/evm/keeper/abci.go) makes exactly these calls: it delegates to the ethermint
+   fork's EVMBlockConfig (a dependency: it reads the evm / fee-market parameters and the block proposer; exercised by
+   every real block of every history of this check) and contains no logic of its own *)
+Theorem C07_evm_beginblock_is_a_wrapper :
+  gen_evm_abci_calls = ["BeginBlock:k.EVMBlockConfig"; "BeginBlock:k.ChainID"]%string.
+Proof. reflexivity. Qed.
+Print Assumptions C07_evm_beginblock_is_a_wrapper.
